@@ -202,12 +202,13 @@ func (tb *TermBuilder) prepare() {
 func (p *Prog) CalleeKey(c *ssa.CallCommon) (key string, fn *ssa.Function, obj types.Object) {
 	if c.IsInvoke() {
 		impls := p.Impls(c.Method)
+		var one *ssa.Function
 		if len(impls) == 1 {
-			return FuncName(impls[0]), impls[0], c.Method
+			one = impls[0]
 		}
 		recv := c.Method.Type().(*types.Signature).Recv().Type().String()
 		recv = shorten(strings.ReplaceAll(recv, Module+"/", ""))
-		return "iface:" + recv + "." + c.Method.Name(), nil, c.Method
+		return "iface:" + recv + "." + c.Method.Name(), one, c.Method
 	}
 	if sc := c.StaticCallee(); sc != nil {
 		f := sc
